@@ -12,10 +12,17 @@ import (
 )
 
 const (
-	verifRoot = "/verif"
-	repoRoot  = "/repo"
-	goRoot    = "/opt/veriftools/go1.26.8"
+	repoRoot = "/repo"
+	goRoot   = "/opt/veriftools/go1.26.8"
 )
+
+// verifRoot is /verif unless VERIF_ROOT points at a snapshot of it (vp run).
+var verifRoot = func() string {
+	if v := os.Getenv("VERIF_ROOT"); v != "" {
+		return v
+	}
+	return "/verif"
+}()
 
 func buildDir() string { return filepath.Join(verifRoot, "build") }
 
